@@ -93,26 +93,48 @@ Theorem crashed_objects_delete_nothing w f done dels x :
   x_state x = Crashed -> gc_db w (f, done, dels) x = (f, done ++ [x], dels).
 Proof. intro C. unfold gc_db. rewrite C. reflexivity. Qed.
 
-(* ---------- dropped_wals_removed: a saved retention update removes the WAL of every dropped checkpoint ---------- *)
-Theorem dropped_wals_removed w x c :
-  In c (x_pending x) -> fs_has (g_fs (fst (save_list w x))) (c_wal c) = false.
+(* ---------- dropped_wals_removed: only a retention update whose Save succeeded removes the WALs it dropped ---------- *)
+Lemma fold_del_map (l : list ckrec) f : fold_left (fun f c => fs_del f (c_wal c)) l f = fold_left fs_del (map c_wal l) f.
+Proof. revert f. induction l as [|y l IH]; intro f; [reflexivity|]. cbn [fold_left map]. apply IH. Qed.
+
+Theorem save_ok_removes_pending_wals w x f c :
+  snd (save_list_f w x f) = true -> In c (x_pending x) ->
+  fs_has (g_fs (fst (fst (save_list_f w x f)))) (c_wal c) = false.
 Proof.
-  intros Hc. unfold save_list. cbn [fst set_fs g_fs].
-  assert (forall (l : list ckrec) f, fold_left (fun f c => fs_del f (c_wal c)) l f = fold_left fs_del (map c_wal l) f) as E.
-  { induction l as [|y l IH]; intro f; [reflexivity|]. cbn [fold_left map]. apply IH. }
-  rewrite E. apply fold_del_gone. apply in_map. exact Hc.
+  unfold save_list_f. destruct (f =? 1); [discriminate|].
+  destruct ((f =? 2) && negb (match x_pending x with [] => true | _ => false end)); [discriminate|].
+  intros _ Hc. unfold save_destroy. cbn [fst snd set_fs g_fs]. rewrite fold_del_map. apply fold_del_gone. apply in_map. exact Hc.
 Qed.
 
-Theorem retain_moves_to_pending w d ids x c :
-  get_db w d = Some x -> In c (x_ckpts x) -> retain_keeps ids c = false ->
-  fs_has (g_fs (step w (ORetain d ids))) (c_wal c) = false.
+(* a Save that returns an error has deleted nothing: at most the checkpoints file itself was rewritten *)
+Theorem failed_save_deletes_nothing w x f n :
+  snd (save_list_f w x f) = false -> fname_eqb n (x_dir x, 2, 0) = false ->
+  fs_has (g_fs (fst (fst (save_list_f w x f)))) n = fs_has (g_fs w) n.
 Proof.
-  intros G Hc NK. cbn [step]. rewrite G.
-  set (x1 := with_ck x (filter (retain_keeps ids) (x_ckpts x)) (x_pending x ++ filter (fun c => negb (retain_keeps ids c)) (x_ckpts x)) (x_cktasks x)).
-  pose proof (dropped_wals_removed w x1 c) as D.
-  destruct (save_list w x1) as [w1 x2] eqn:S. cbn [fst] in D. unfold set_db. cbn [g_fs].
-  apply D.
+  unfold save_list_f. destruct (f =? 1); [reflexivity|].
+  destruct ((f =? 2) && negb (match x_pending x with [] => true | _ => false end)); [|discriminate].
+  intros _ NE. unfold save_write. cbn [fst add_dropped set_fs g_fs]. apply fs_has_put_other. exact NE.
+Qed.
+
+Theorem retain_saved_removes_dropped_wals w d ids f x c :
+  get_db w d = Some x -> retain_ok w d ids f = true -> In c (x_ckpts x) -> retain_keeps ids c = false ->
+  fs_has (g_fs (step_retain w d ids f)) (c_wal c) = false.
+Proof.
+  intros G OK Hc NK. unfold step_retain, retain_ok in *. rewrite G in *.
+  set (x1 := with_ck x (filter (retain_keeps ids) (x_ckpts x)) (x_pending x ++ filter (fun c => negb (retain_keeps ids c)) (x_ckpts x)) (x_cktasks x)) in *.
+  pose proof (save_ok_removes_pending_wals w x1 f c OK) as D.
+  destruct (save_list_f w x1 f) as [[w1 x2] ok]. cbn [fst snd] in *. unfold set_db. cbn [g_fs]. apply D.
   unfold x1, with_ck. cbn [x_pending]. apply in_or_app. right. apply filter_In. split; [exact Hc|]. rewrite NK. reflexivity.
+Qed.
+
+Theorem retain_failed_keeps_wals w d ids f x n :
+  get_db w d = Some x -> retain_ok w d ids f = false -> fname_eqb n (x_dir x, 2, 0) = false ->
+  fs_has (g_fs (step_retain w d ids f)) n = fs_has (g_fs w) n.
+Proof.
+  intros G OK NE. unfold step_retain, retain_ok in *. rewrite G in *.
+  set (x1 := with_ck x (filter (retain_keeps ids) (x_ckpts x)) (x_pending x ++ filter (fun c => negb (retain_keeps ids c)) (x_ckpts x)) (x_cktasks x)) in *.
+  pose proof (failed_save_deletes_nothing w x1 f n OK) as D.
+  destruct (save_list_f w x1 f) as [[w1 x2] ok]. cbn [fst snd] in *. unfold set_db. cbn [g_fs]. apply D. exact NE.
 Qed.
 
 (* ---------- finding D11: the full statement is false on the faithful model ---------- *)
